@@ -35,7 +35,7 @@ def jmpi_attributable(text, hexbuf, engine):
 
 def run(tier, cases=None, only_engines=None):
     ck = Check(PROP, tier, "model_checking")
-    nprog = 320 if tier == "quick" else 6000
+    nprog = 720 if tier == "quick" else 6000
     if cases is None:
         cases, r = progs.generate(nprog // 2, seed=vlib.seed())
         nstates = r.states
